@@ -50,7 +50,7 @@ def check(ctx):
     key_colon = relang.all_end_with(key_group_items(info), ":")
     for f, rec, n in ems:
         ctx.analysed_func(f)
-        r16_4(ctx, f, rec, n, extras, schema, key_colon)
+        ctx.run(r16_4, f, rec, n, extras, schema, key_colon, _independent=True)  # one writer each
     ctx.run(r16_5, extras, schema)
     ctx.run(r16_7, schema, extras)
     ctx.run(r16_8, extras)
@@ -59,6 +59,15 @@ def check(ctx):
     from . import shared as _sh
 
     ctx.run(_sh.r16_9)  # C16 owns the column rule
+
+    # the converters replace the CIGAR field only for a record that has one (an invented empty `cg:Z:` is an extra field)
+    def _cigar_presence(c_):
+        from . import c01 as _c01
+        from . import conv_common as _cc
+
+        _c01.r01_3(c_, _cc.build(c_, "R01.3"))
+
+    ctx.run_shared(_cigar_presence)
     ctx.run_shared(_sh.gaf_reader)
     ctx.run_shared(_sh.cli_layer, "gaftools.cli.view")
     ctx.run_shared(_sh.cli_layer, "gaftools.cli.realign")
